@@ -49,7 +49,9 @@ TERMS = [
 ]
 # terminals whose meaning depends on the charset option (negated class, dot): only used with charset=<set>
 NEG_TERMS = [("/[^a]/", "bé", ["b", "é"]), ("/./", "abé", ["a", "b", "é"]), ("/[^b]+/", "aé", ["a", "é", "aé"]), ("/a[^é]/", "ab", ["ab", "aa"])]
-IGNORES = [('" "', " ", [" "]), ("/[ ]+/", " ", [" ", "  "]), ('"_"', "_", ["_"]), ("/[ _]/", " _", [" ", "_"])]
+IGNORES = [('" "', " ", [" "]), ("/[ ]+/", " ", [" ", "  "]), ('"_"', "_", ["_"]), ("/[ _]/", " _", [" ", "_"]),
+           # control characters: byte values 9 and 10 are small integers (like renumbered nonterminals)
+           ("/[ \\t\\n]+/", " \n", [" ", "\n", "\t", " \n"]), ("/\\n/", "\n", ["\n"])]
 
 
 def plan(tier, seed):
@@ -94,7 +96,7 @@ def gen_case(rng, spec):
         names = [base] + [f"{base}_{k}" for k in range(len(tl) - 1)]
         rng.shuffle(names)
     ign = rng.choice(IGNORES) if rng.random() < 0.5 else None
-    nrules = rng.randint(0, 2)
+    nrules = rng.randint(0, 2) if rng.random() < 0.75 else rng.randint(3, 6)  # EBNF operators add helper rules: 10+ nonterminals
     rnames = ["start"] + [f"r{i}" for i in range(nrules)]
 
     ign_in_rules = bool(ign) and rng.random() < 0.35  # the ignored terminal is ALSO an ordinary symbol of some rule
